@@ -72,12 +72,12 @@ Print Assumptions C01_history_correct.
 Theorem C01_overhang_refuted :
   let cp := {| cap_rgb := true; cap_styled_ul := true; cap_sync := false; cap_explicit_width := false |} in
   let wide := {| c_g := [28450]; c_w := 0; c_mw := 2; c_st := style0; c_sixel := false |} in
-  let tw := fun g => if zlist_eqb g [28450] then 2 else 1 in
+  let tw := fun g => if zlist_eqb g [28450] then 2 else if zlist_eqb g [] then 0 else 1 in
   let s1 := apply_op (vinit cp 1 2) (OSet 1 0 wide) in
   grid_ok_nofit tw tw cp (v_next s1) = true /\ grid_ok tw tw cp (v_next s1) = false /\
   let '(_, o) := do_render s1 in
   screen_matches cp (interp tw (term_unknown 1 2) o) (v_next s1) = false.
-Proof. vm_compute. repeat split. Qed.
+Proof. vm_compute. split; [reflexivity|]. split; reflexivity. Qed.
 Print Assumptions C01_overhang_refuted.
 
 (* non-vacuity: a history with wide, zero-width and styled cells, a cursor, a refresh and a
